@@ -75,7 +75,7 @@ theorem level_map_monotone (l l' z z' : Int) (h : convertLevel l = some z) (h' :
   have key : ∀ a ∈ Gen.slogLevels, ∀ b ∈ Gen.slogLevels, a.1 ≤ b.1 → a.2 ≤ b.2 := by decide +kernel
   exact key _ (lookup_mem _ _ _ h) _ (lookup_mem _ _ _ h') hl
 
-/-- … onto zap levels (Debug = −1 … Fatal = 5), and the table covers every slog level in [−12, 12] -/
+/-- … onto zap levels (Debug = −1 … Fatal = 5), and the table covers every slog level in [−12, 12] (and far-out sample points on both sides) -/
 theorem level_map_valid :
     (∀ p ∈ Gen.slogLevels, -1 ≤ p.2 ∧ p.2 ≤ 5) ∧
     (∀ n ∈ List.range 25, (convertLevel ((n : Int) - 12)).isSome = true) := by
@@ -148,7 +148,7 @@ example : handle (run root [.withGroup "g", .withAttrs [.nilv "" 1], .withGroup 
   rw [handler_refines_contract]
   simp [tree, contents, content, wrap, nest]
 
-example : convertLevel 4 = some 1 ∧ convertLevel (-4) = some (-1) ∧ convertLevel 13 = none := by decide +kernel
+example : convertLevel 4 = some 1 ∧ convertLevel (-4) = some (-1) ∧ convertLevel 14 = none ∧ convertLevel 512 = some 2 := by decide +kernel
 
 example : Live [] ⟨[], ⟨0, 0⟩⟩ := Or.inl rfl
 
